@@ -752,11 +752,11 @@ def r10_cleanup_count_is_fresh(ck, P):
                     if not cl:
                         continue
                     # the bound: the other side of the header's comparison with the induction variable
-                    N = None
+                    N = None; bound_cmp = None
                     for x in hdr.insts:
                         if x.op == 'icmp' and any(a == ['v', iv.i] for a in x.a):
                             o = [a for a in x.a if a != ['v', iv.i]][0]
-                            N = f.v(o)
+                            N = f.v(o); bound_cmp = x
                     if N is None or N.op != 'phi' or N.bb.id in blocks:
                         continue
                     ck.saw(f)
@@ -777,6 +777,15 @@ def r10_cleanup_count_is_fresh(ck, P):
                         if bad:
                             break
                     where = '%s/%s: cleanup loop at block %d over %s, count %s from %d edges, %d earlier element releases' % (u.name, fn, lp['header'], '/'.join(key), N.dv or 'N', len(N.a), len(elem))
+                    # the loop covers [0, N): with i <= N it also releases element N, which is not (or no longer) owned
+                    pr = bound_cmp.d['p']
+                    if bound_cmp.a[0] != ['v', iv.i]:
+                        pr = {'slt': 'sgt', 'sgt': 'slt', 'sle': 'sge', 'sge': 'sle', 'ult': 'ugt', 'ugt': 'ult', 'ule': 'uge', 'uge': 'ule'}.get(pr, pr)
+                    stay_true = hdr.term.op == 'br' and hdr.term.d['succ'][0] in blocks
+                    inclusive = (pr in ('sle', 'ule')) if stay_true else (pr in ('sgt', 'ugt'))
+                    if inclusive:
+                        ck.violation(R, fn, 'cleanup loop bound (%s)' % u.name, 'the cleanup loop runs while i <= %s, i.e. over elements [0, %s]: element %s is one past the elements this function owns - in the merge step it is a region that has just been released (double free), earlier an uninitialised slot (free of a garbage pointer)' % (N.dv or 'N', N.dv or 'N', N.dv or 'N'), bound_cmp.loc())
+                        continue
                     if bad:
                         F, p, v = bad
                         ck.violation(R, fn, 'cleanup count %s (%s)' % (N.dv or 'N', u.name), 'the cleanup loop releases %s of elements [0, %s) but along the edge from block %d the count was computed before the release at %s: an element released there is still inside the range and is released a second time (and its freed header is read first)' % (key[-1].split('.')[-1], N.dv or 'N', p, F.loc()), F.loc())
